@@ -107,7 +107,20 @@ def gen_collection(rng, n=None, uniform=None):
 
 
 def gen_times(rng, n):
-    kind = rng.choice(["range", "ints", "neg", "floats", "mixed"])
+    kind = rng.choice(["range", "ints", "neg", "floats", "mixed", "unordered"])
+    if kind == "unordered":
+        # decreasing, restarted and repeated time stamps: the order of the members is the order they were given in
+        base = [float(t) for t in range(n)]
+        mode = rng.choice(["decreasing", "restarted", "repeated", "shuffled"])
+        if mode == "decreasing":
+            return base[::-1]
+        if mode == "restarted":
+            k = max(1, n // 2)
+            return base[:k] + [t / 2 for t in base[: n - k]]
+        if mode == "repeated":
+            return [float(t // 2) for t in range(n)]
+        rng.shuffle(base)
+        return base
     if kind == "range":
         return list(range(n))
     if kind == "mixed":
